@@ -54,11 +54,13 @@ class FixedECU(UDSServer):
 class LiveGateway:
     """DoIP / HSFZ gateway that behaves correctly: activation, ack, reply from the UDS server."""
 
-    def __init__(self, loop: Any, proto: Any, uds: UDSServerTransport, pending: bool = False) -> None:
+    def __init__(self, loop: Any, proto: Any, uds: UDSServerTransport, pending: bool = False, ack_delay: float = 0.0) -> None:
         self.loop = loop
         self.proto = proto
         self.uds = uds
         self.pending = pending
+        self.ack_delay = ack_delay  # a gateway that is slow to acknowledge (but within the configured ack time)
+        self.strict: dict[str, int] | None = None  # DoIP: the only tester (address, activation type, version) this gateway activates
         self.requests: list[bytes] = []
         self.sent_replies: list[bytes] = []
         self.accepted = 0
@@ -78,10 +80,19 @@ class LiveGateway:
                         break
                     buf = buf[used:]
                     if frame["kind"] == "activation":
-                        writer.write(self.proto.build({"f": "act", "code": 0x10}, self))
+                        code = 0x10
+                        if self.strict is not None:
+                            import struct
+
+                            want = struct.pack("!HBL", self.strict["src"], self.strict["act"], 0)
+                            if frame["ver"] != self.strict["ver"] or frame["inv"] != self.strict["ver"] ^ 0xFF or frame["body"] != want:
+                                code = 0x00  # unknown source address / unsupported activation: denied
+                        writer.write(self.proto.build({"f": "act", "code": code}, self))
                     elif frame["kind"] == "data":
                         self.requests.append(frame["payload"])
                         n = len(self.requests) - 1
+                        if self.ack_delay:
+                            await asyncio.sleep(self.ack_delay)
                         writer.write(self.proto.build({"f": "ack", "req": n}, self))
                         reply, _ = await self.uds.handle_request(frame["payload"])
                         if reply is not None:
@@ -114,7 +125,11 @@ class _HSFZ(HSFZProto):
         return super().build(spec, gw)
 
 
-def uri_for(scheme: str) -> str:
+def uri_for(scheme: str, ack_ms: int = 1000, doip: dict[str, int] | None = None) -> str:
+    if scheme == "hsfz" and ack_ms != 1000:
+        return f"hsfz://h:6801?src_addr=0xf4&dst_addr=0x10&ack_timeout={ack_ms}"
+    if scheme == "doip" and doip:
+        return f"doip://h:13400?src_addr={doip['src']:#06x}&target_addr=0x1d&activation_type={doip['act']:#04x}&protocol_version={doip['ver']}"
     return {
         "tcp-lines": "tcp-lines://h:1",
         "unix-lines": "unix-lines:///sim/ecu.sock",
@@ -221,6 +236,16 @@ class C08(Check):
                 at = rng.randrange(max(s2c_0 - (s2c_p - s2c_0) - 2, 0), s2c_p + 1)
         plan["cuts"] = [{"dir": d, "at": at, "kind": kind}]
         plan["linger"] = rng.choice([0.0, 0.0, 0.02]) if index >= len(cells) else 0.0
+        if index >= len(cells) and scheme == "hsfz" and rng.random() < 0.3:
+            # a non-default acknowledgement time in the target URI and a gateway that needs more than the default to acknowledge:
+            # the configured value must also hold on the connections made by a reconnect
+            plan["ack_ms"] = rng.choice([2000, 3000])
+            plan["ack_delay"] = rng.choice([1.2, 1.5])
+            plan["T"] = 2.5  # the caller's timeout also bounds the write (ack wait included)
+        if index >= len(cells) and scheme == "doip" and rng.random() < 0.3:
+            # a tester configuration other than the defaults, and a gateway that activates exactly that tester: the
+            # configured source address, activation type and protocol version must also be used by a reconnect
+            plan["doip"] = {"src": rng.choice([0x0E00, 0x0E80, 0x0001]), "act": rng.choice([0x00, 0x01, 0xE0, 0x77]), "ver": rng.choice([2, 3])}
         if index >= len(cells) and kind in ("EOF", "RST") and rng.random() < 0.15:
             # the peer closes / resets the idle connection BEFORE the exchange starts (no byte of it is on the wire yet):
             # the cut is fired right after the connect, the operation starts 0.05 - 0.4 s later
@@ -261,7 +286,7 @@ class C08(Check):
         res = new_result()
         scheme, op = plan["scheme"], plan["op"]
         holder: dict[str, Any] = {}
-        ack = ACK[scheme]
+        ack = plan.get("ack_ms", 0) / 1000.0 or ACK[scheme]
         T = plan["T"]
 
         async def main(loop: Any) -> Any:
@@ -323,12 +348,15 @@ class C08(Check):
                 loop.keep.append(t)
                 await asyncio.sleep(0)
             else:
-                proto = _DoIP(0x0E00, 0x1D, 3) if scheme == "doip" else _HSFZ(0xF4, 0x10)
-                lg = LiveGateway(loop, proto, UDSServerTransport(server, TargetURI("tcp://h:1")), pending=bool(plan.get("pending")))
+                dc = plan.get("doip")
+                proto = _DoIP(dc["src"] if dc else 0x0E00, 0x1D, dc["ver"] if dc else 3) if scheme == "doip" else _HSFZ(0xF4, 0x10)
+                lg = LiveGateway(loop, proto, UDSServerTransport(server, TargetURI("tcp://h:1")), pending=bool(plan.get("pending")), ack_delay=plan.get("ack_delay", 0.0))
                 holder["gw"] = lg
+                if scheme == "doip" and dc:
+                    lg.strict = dict(dc)
                 net.listen(addr, lg.handle)
             cls = cls_for(scheme)
-            uri = uri_for(scheme)
+            uri = uri_for(scheme, plan.get("ack_ms", 1000), plan.get("doip"))
             steps: list[dict[str, Any]] = []
             holder["steps"] = steps
 
@@ -415,6 +443,10 @@ class C08(Check):
             bump(res["faults"], "cut_" + c.kind)
         if plan.get("pending") and fired:
             bump(res["probes"], "cut_with_response_pending_peer")
+        if plan.get("doip") and fired:
+            bump(res["probes"], "cut_with_non_default_doip_tester_and_strict_gateway")
+        if plan.get("ack_ms") and fired:
+            bump(res["probes"], "cut_with_slow_ack_and_configured_ack_time")
         if out.kind == "exc":
             raise out.exc  # type: ignore[misc]
         if out.hung:
